@@ -17,10 +17,13 @@ Chars(s)   == [i \in 1..Len(s) |-> s[i]]
 OkR(o)     == o.r \in {"ok", "refused"}
 
 Matches(ev) ==
-  CASE ev.a = "print"    -> OkR(ev.obs) /\ PrintOK(ev.arg.src, Lift(ev.obs.v), FmtRadix(ev.arg.flags),
-                                                   [ev.obs EXCEPT !.pw = Lift(@)])
+  CASE ev.a = "print"    -> /\ OkR(ev.obs)
+                            /\ PrintOK(ev.arg.src, Lift(ev.obs.v), FmtRadix(ev.arg.flags), [ev.obs EXCEPT !.pw = Lift(@)])
+                            /\ (ev.arg.api # "num" => SinkOK(ev.obs))
     [] ev.a = "printvec" -> OkR(ev.obs) /\ PrintVecOK(ev.arg.src, LiftSeq(ev.obs.vs), ev.obs)
+                                        /\ (ev.arg.src # "c" => SinkOK(ev.obs))
     [] ev.a = "printobj" -> OkR(ev.obs) /\ PrintObjOK(ev.arg.types, LiftSeq(ev.obs.vs), ev.obs)
+                                        /\ SinkObjOK(Len(ev.obs.vs), ev.obs)
     [] ev.a = "fmt"      -> OkR(ev.obs) /\ FmtOK(ev.arg.chars, ev.obs)
     [] ev.a = "fmtlist"  -> OkR(ev.obs) /\ FmtListOK(ev.arg.chars, ev.obs)
     [] ev.a = "dest"     -> OkR(ev.obs) /\ DestOK(ev.arg.chars, ev.arg.sep, ev.arg.max, ev.obs)
